@@ -33,6 +33,7 @@ type c20ccfg struct {
 	cancel    bool
 	closer    bool
 	crash     bool
+	oneCall   bool // the puts are one Put call with all the keys (more keys than two reset buffers hold)
 }
 
 func c20cConfigs(tier string) []vmc.Cfg {
@@ -49,6 +50,7 @@ func c20cConfigs(tier string) []vmc.Cfg {
 			{"put-old-key+new-key", c20ccfg{batchSize: 1, bufCap: 1, old: []int{0}, stream: []int{1, 2}, puts: []int{0, 3}, crash: true}},
 			{"batch2-cap2", c20ccfg{batchSize: 2, bufCap: 2, old: []int{0}, stream: []int{1, 2}, puts: []int{3, 0}, crash: true}},
 			{"put-stream-key", c20ccfg{batchSize: 2, bufCap: 1, old: []int{0, 1}, stream: []int{2}, puts: []int{2, 1}, crash: true}},
+			{"one-put-larger-than-two-buffers", c20ccfg{batchSize: 1, bufCap: 1, old: []int{0}, stream: []int{1}, puts: []int{3, 4, 2}, oneCall: true, crash: true}},
 			{"cancel", c20ccfg{batchSize: 1, bufCap: 1, old: []int{0}, stream: []int{1, 2}, puts: []int{3}, cancel: true}},
 			{"close", c20ccfg{batchSize: 1, bufCap: 1, old: []int{0}, stream: []int{1, 2}, puts: []int{3}, closer: true}},
 		} {
@@ -172,6 +174,22 @@ func c20ConcRun(x *vmc.X, cfg vmc.Cfg) {
 		close(ch)
 	})
 	sched.Go("putter", func() {
+		if c.oneCall {
+			mu.Lock()
+			putterInCall = true
+			mu.Unlock()
+			callAt := tick()
+			_, err := ks.Put(ctx, keys.toMh(c.puts)...)
+			retAt := tick()
+			j := env.group.JournalLen()
+			mu.Lock()
+			for n, i := range c.puts {
+				puts[n] = &c20event{what: "put", key: i, seq: n, err: err, callAt: callAt, retAt: retAt, j: j}
+			}
+			putterInCall = false
+			mu.Unlock()
+			return
+		}
 		for n, i := range c.puts {
 			if n > 0 {
 				sched.Point(fmt.Sprintf("put k%d", i))
